@@ -413,6 +413,7 @@ func TestRun(t *testing.T) {
 	// ---- concurrency: mutation concurrent with dispatch
 	concurrent(rec, seed)
 	histories(rec, vr.Scale(3000, 100000), seed)
+	throughAdapter(rec, vr.Scale(2000, 60000), seed)
 	rec.Assume("reference matcher: literals verbatim, {v} = one or more non-slash bytes, {v:re} = ^(?:re)$ for that variable alone; ties between equal-length patterns accept either")
 }
 
